@@ -12,7 +12,7 @@ DECIDES = ('the unweighted-points / weights caches of the three rational classes
            'coordinate range and copy the slot (WS1), and paired converters are inverse element maps, (c*w)/w = c in normal form (WS2); '
            'rational property setters pass (points, weights) to the combiner in that order and sizes in (u, v, w) order (WS3, LY3) and store the result on every normally returning path (WS4); the '
            'weighted grid indexes its flat per-point weight list by both loop levels with the right stride (PP1); type converters copy '
-           'every defining property from the same-direction property of the source (CV1); no method stores a structure that may alias one of its arguments into the control point array or a cached view, so the views cannot drift apart through the caller\'s own lists (ES1, may-alias analysis); the unit-weight test of nurbs_to_bspline is two-sided (TOL1) and a single non-unit weight refuses the conversion (UW1). the file variants of the 2-D converters apply the converter they are named after and save the array with matching sizes (FH1, LY3f).')
+           'every defining property from the same-direction property of the source (CV1); no method stores a structure that may alias one of its arguments into the control point array or a cached view, so the views cannot drift apart through the caller\'s own lists (ES1, may-alias analysis); a cached view is read only inside its own lazily filling getter, every other method goes through the property (IV8); the unit-weight test of nurbs_to_bspline is two-sided (TOL1) and a single non-unit weight refuses the conversion (UW1). the file variants of the 2-D converters apply the converter they are named after and save the array with matching sizes (FH1, LY3f).')
 NOT_DECIDED = 'invariance of evaluated points under a common positive weight factor; numerical round-trip to rounding; evaluation equality after type conversion (needs C01).'
 TECHNIQUE = 'static typestate dataflow + per-point map extraction in polynomial normal form + axis-tag rules + may-alias escape analysis'
 
@@ -49,8 +49,35 @@ def check(m, run):
     from . import c14
     c14.file_helpers(m, run)
     every_weight_tested(m, run)
+    reads_through_getters(m, run)
     run.floor('WS1.weight-slot', 12, '6 converters x (coordinate map, domain, slot)')
     run.floor('CV1.convert-copies-same-axis', 20, '4 + 7 + 10 assignments of _convert')
+
+
+# ---------------------------------------------------------------------------------------------- IV8
+def reads_through_getters(m, run):
+    """the unweighted-points / weights views are filled lazily by their getters: a cached view is read only inside the getter of the
+    same name (after its fill test).  Any other method must go through `self.ctrlpts` / `self.weights`; reading `self._cache[...]`
+    directly sees the empty list whenever nobody has read the view since the last edit."""
+    n = 0
+    for cname in ('Curve', 'Surface', 'Volume'):
+        ci = m.cls('NURBS', cname)
+        members = [(k, f) for k, f in ci.methods.items()] + [(k + '#getter', f) for k, f in ci.getters.items()] + [(k + '#setter', f) for k, f in ci.setters.items()]
+        for name, fi in members:
+            for x in walk_no_nested(fi.node):
+                if isinstance(x, ast.Subscript) and isinstance(x.ctx, ast.Load) and norm(x.value) == 'self._cache' and isinstance(x.slice, ast.Constant) \
+                        and x.slice.value in ('ctrlpts', 'weights'):
+                    par = getattr(x, '_sa_parent', None)
+                    if isinstance(par, ast.Subscript) and par.value is x and isinstance(par.ctx, (ast.Store, ast.Del)):
+                        continue          # self._cache[k][:] = ...  clears the view, it does not read it
+                    own = name == x.slice.value + '#getter'
+                    n += 1
+                    run.ob('IV8.view-read-through-its-getter', '%s :: %s' % (fi.key, norm(x)), own,
+                           'read inside its own lazily filling getter' if own else
+                           '`%s` is read directly: the view is only filled by its getter, so after any edit (cold cache) this read sees an empty list '
+                           '- e.g. existing weights are taken for missing and replaced by 1.0' % norm(x), site(fi, x))
+    if n < 12:
+        raise AnalysisError('IV8: only %d cache reads found in the rational classes' % n)
 
 
 # ---------------------------------------------------------------------------------------------- UW1
